@@ -34,7 +34,7 @@ def _observe(case):
             rec['out'] = 'exc'
             rec['exc_key'] = irlib.exc_key(x)
         return rec
-    rec = {'id': case['id'], 'kind': 'reads', 'e': t, 'rmr': [], 'r0': [], 'w': [], 'exc': ''}
+    rec = {'id': case['id'], 'kind': 'reads', 'e': t, 'rmr': [], 'r0': [], 'w': [], 'exc': '', 'order': 'mem_read first'}
     try:
         e = EJ.from_json(t)
         if t['k'] == 'aff':
@@ -42,6 +42,13 @@ def _observe(case):
         else:
             rec['rmr'] = [EJ.to_json(x) for x in e.get_r(mem_read=True)]
             rec['r0'] = [EJ.to_json(x) for x in e.get_r()]
+            # the other order of the two questions on one (fresh) object: reported as an observation of its own when it differs
+            e2 = EJ.from_json(t)
+            r0b = [EJ.to_json(x) for x in e2.get_r()]
+            rmrb = [EJ.to_json(x) for x in e2.get_r(mem_read=True)]
+            key = lambda l: sorted(json.dumps(x, sort_keys=True) for x in l)
+            if key(r0b) != key(rec['r0']) or key(rmrb) != key(rec['rmr']):
+                rec['second'] = dict(rec, rmr=rmrb, r0=r0b, order='default first')
     except Exception as x:
         rec['exc'] = type(x).__name__
         rec['exc_key'] = irlib.exc_key(x)
@@ -107,11 +114,20 @@ def run(tier, chk):
     items = gen_derived(4 if not quick else 3, [8, 32], ['+', '-', '&', '<<', '=='], ['plain'], chk)
     items += gen_derived(3, [1, 8, 16, 32], ['+', '*', '>>>'], ['plain'], chk)
     pats = gen_derived(3, [8, 32], ['+', '-', '&', '<<', '=='], ['pat', 'patmut'], chk)
+    # widths 8/16/32: concatenations (8+8, 16+16, 8+... ) and slices between all of them occur as patterns and mutated non-instances
+    pats += gen_derived(3, [8, 16, 32], ['+', '&'], ['pat', 'patmut'], chk)
     if quick:
         pats = [x for x in pats if rnd.random() < 0.3]
         items = [x for x in items if rnd.random() < 0.6]
+    if quick:
+        # conditions, slices and memory cells under another node need four nodes: a narrower alphabet at that bound
+        more = gen_derived(4, [8, 32], ['+', '=='], ['plain'], chk)
+        items += [x for x in more if x['e']['k'] in ('cond', 'mem', 'slice', 'aff') and rnd.random() < 0.5]
     cases = [dict(x, id=i) for i, x in enumerate(items + pats)]
     recs = irlib.pmap(_observe, cases)
+    for r in list(recs):
+        if 'second' in r:
+            recs.append(dict(r.pop('second'), id=len(recs)))
     for r in recs:
         if r['kind'] == 'reads':
             r['envs'] = irlib.make_envs(EJ.ids_of(r['e']), 5, rnd)
